@@ -230,60 +230,102 @@ theorem N3_E_truesdell_row0 (hc : c * c = 2) (i : InT K)
     (hl : ∀ a b : Fin 3, a ≠ b → lam (toS i) a ≠ lam (toS i) b) :
     [Gen3TE.N3_E_truesdell_Kr0_0_full c c3 fn i, Gen3TE.N3_E_truesdell_Kr0_1_full c c3 fn i, Gen3TE.N3_E_truesdell_Kr0_2_full c c3 fn i, Gen3TE.N3_E_truesdell_Kr0_3_full c c3 fn i, Gen3TE.N3_E_truesdell_Kr0_4_full c c3 fn i, Gen3TE.N3_E_truesdell_Kr0_5_full c c3 fn i]
     = [(4 * quad6 (P (toS i)) (KS (toS i)) 0 0 + 4 * D2 (lam (toS i)) (ev (toS i)) (dv (toS i)) (sv (toS i)) (eig (Mm (toS i)) (Tm c (toS i))) (eig (FE (toS i) * Mm (toS i)) (E c 0)) (eig (FE (toS i) * Mm (toS i)) (E c 0))) / (FE (toS i)).det, (4 * quad6 (P (toS i)) (KS (toS i)) 0 1 + 4 * D2 (lam (toS i)) (ev (toS i)) (dv (toS i)) (sv (toS i)) (eig (Mm (toS i)) (Tm c (toS i))) (eig (FE (toS i) * Mm (toS i)) (E c 0)) (eig (FE (toS i) * Mm (toS i)) (E c 1))) / (FE (toS i)).det, (4 * quad6 (P (toS i)) (KS (toS i)) 0 2 + 4 * D2 (lam (toS i)) (ev (toS i)) (dv (toS i)) (sv (toS i)) (eig (Mm (toS i)) (Tm c (toS i))) (eig (FE (toS i) * Mm (toS i)) (E c 0)) (eig (FE (toS i) * Mm (toS i)) (E c 2))) / (FE (toS i)).det, (4 * quad6 (P (toS i)) (KS (toS i)) 0 3 + 4 * D2 (lam (toS i)) (ev (toS i)) (dv (toS i)) (sv (toS i)) (eig (Mm (toS i)) (Tm c (toS i))) (eig (FE (toS i) * Mm (toS i)) (E c 0)) (eig (FE (toS i) * Mm (toS i)) (E c 3))) / (FE (toS i)).det, (4 * quad6 (P (toS i)) (KS (toS i)) 0 4 + 4 * D2 (lam (toS i)) (ev (toS i)) (dv (toS i)) (sv (toS i)) (eig (Mm (toS i)) (Tm c (toS i))) (eig (FE (toS i) * Mm (toS i)) (E c 0)) (eig (FE (toS i) * Mm (toS i)) (E c 4))) / (FE (toS i)).det, (4 * quad6 (P (toS i)) (KS (toS i)) 0 5 + 4 * D2 (lam (toS i)) (ev (toS i)) (dv (toS i)) (sv (toS i)) (eig (Mm (toS i)) (Tm c (toS i))) (eig (FE (toS i) * Mm (toS i)) (E c 0)) (eig (FE (toS i) * Mm (toS i)) (E c 5))) / (FE (toS i)).det] := by
-  rw [← N3_E_spatial_row0 c c3 fn hc (toS i) hl]
-  simp only [Gen3TE.N3_E_truesdell_Kr0_0_full, Gen3TE.N3_E_truesdell_Kr0_1_full, Gen3TE.N3_E_truesdell_Kr0_2_full, Gen3TE.N3_E_truesdell_Kr0_3_full, Gen3TE.N3_E_truesdell_Kr0_4_full, Gen3TE.N3_E_truesdell_Kr0_5_full, Gen3TE.N3_E_spatial_Kr0_0_full, Gen3TE.N3_E_spatial_Kr0_1_full, Gen3TE.N3_E_spatial_Kr0_2_full, Gen3TE.N3_E_spatial_Kr0_3_full, Gen3TE.N3_E_spatial_Kr0_4_full, Gen3TE.N3_E_spatial_Kr0_5_full, ← truesdell_cuts]
-  simp only [gen_simp, toS, toSc, FE, M3.ofTens, M3.det, List.cons.injEq, and_true]
-  repeat' apply And.intro
-  all_goals ring
+  have h := N3_E_spatial_row0 c c3 fn hc (toS i) hl
+  have e : [Gen3TE.N3_E_truesdell_Kr0_0_full c c3 fn i, Gen3TE.N3_E_truesdell_Kr0_1_full c c3 fn i, Gen3TE.N3_E_truesdell_Kr0_2_full c c3 fn i, Gen3TE.N3_E_truesdell_Kr0_3_full c c3 fn i, Gen3TE.N3_E_truesdell_Kr0_4_full c c3 fn i, Gen3TE.N3_E_truesdell_Kr0_5_full c c3 fn i]
+      = [Gen3TE.N3_E_spatial_Kr0_0_full c c3 fn (toS i) / (FE (toS i)).det, Gen3TE.N3_E_spatial_Kr0_1_full c c3 fn (toS i) / (FE (toS i)).det, Gen3TE.N3_E_spatial_Kr0_2_full c c3 fn (toS i) / (FE (toS i)).det, Gen3TE.N3_E_spatial_Kr0_3_full c c3 fn (toS i) / (FE (toS i)).det, Gen3TE.N3_E_spatial_Kr0_4_full c c3 fn (toS i) / (FE (toS i)).det, Gen3TE.N3_E_spatial_Kr0_5_full c c3 fn (toS i) / (FE (toS i)).det] := by
+    simp only [Gen3TE.N3_E_truesdell_Kr0_0_full, Gen3TE.N3_E_truesdell_Kr0_1_full, Gen3TE.N3_E_truesdell_Kr0_2_full, Gen3TE.N3_E_truesdell_Kr0_3_full, Gen3TE.N3_E_truesdell_Kr0_4_full, Gen3TE.N3_E_truesdell_Kr0_5_full, Gen3TE.N3_E_spatial_Kr0_0_full, Gen3TE.N3_E_spatial_Kr0_1_full, Gen3TE.N3_E_spatial_Kr0_2_full, Gen3TE.N3_E_spatial_Kr0_3_full, Gen3TE.N3_E_spatial_Kr0_4_full, Gen3TE.N3_E_spatial_Kr0_5_full, ← truesdell_cuts]
+    simp only [gen_simp, toS, toSc, FE, M3.ofTens, M3.det, List.cons.injEq, and_true]
+    repeat' apply And.intro
+    all_goals ring
+  rw [e]
+  simp only [List.cons.injEq, and_true] at h ⊢
+  obtain ⟨h0, h1, h2, h3, h4, h5⟩ := h
+  rw [h0, h1, h2, h3, h4, h5]
+  exact ⟨rfl, rfl, rfl, rfl, rfl, rfl⟩
 
 theorem N3_E_truesdell_row1 (hc : c * c = 2) (i : InT K)
     (hl : ∀ a b : Fin 3, a ≠ b → lam (toS i) a ≠ lam (toS i) b) :
     [Gen3TE.N3_E_truesdell_Kr1_0_full c c3 fn i, Gen3TE.N3_E_truesdell_Kr1_1_full c c3 fn i, Gen3TE.N3_E_truesdell_Kr1_2_full c c3 fn i, Gen3TE.N3_E_truesdell_Kr1_3_full c c3 fn i, Gen3TE.N3_E_truesdell_Kr1_4_full c c3 fn i, Gen3TE.N3_E_truesdell_Kr1_5_full c c3 fn i]
     = [(4 * quad6 (P (toS i)) (KS (toS i)) 1 0 + 4 * D2 (lam (toS i)) (ev (toS i)) (dv (toS i)) (sv (toS i)) (eig (Mm (toS i)) (Tm c (toS i))) (eig (FE (toS i) * Mm (toS i)) (E c 1)) (eig (FE (toS i) * Mm (toS i)) (E c 0))) / (FE (toS i)).det, (4 * quad6 (P (toS i)) (KS (toS i)) 1 1 + 4 * D2 (lam (toS i)) (ev (toS i)) (dv (toS i)) (sv (toS i)) (eig (Mm (toS i)) (Tm c (toS i))) (eig (FE (toS i) * Mm (toS i)) (E c 1)) (eig (FE (toS i) * Mm (toS i)) (E c 1))) / (FE (toS i)).det, (4 * quad6 (P (toS i)) (KS (toS i)) 1 2 + 4 * D2 (lam (toS i)) (ev (toS i)) (dv (toS i)) (sv (toS i)) (eig (Mm (toS i)) (Tm c (toS i))) (eig (FE (toS i) * Mm (toS i)) (E c 1)) (eig (FE (toS i) * Mm (toS i)) (E c 2))) / (FE (toS i)).det, (4 * quad6 (P (toS i)) (KS (toS i)) 1 3 + 4 * D2 (lam (toS i)) (ev (toS i)) (dv (toS i)) (sv (toS i)) (eig (Mm (toS i)) (Tm c (toS i))) (eig (FE (toS i) * Mm (toS i)) (E c 1)) (eig (FE (toS i) * Mm (toS i)) (E c 3))) / (FE (toS i)).det, (4 * quad6 (P (toS i)) (KS (toS i)) 1 4 + 4 * D2 (lam (toS i)) (ev (toS i)) (dv (toS i)) (sv (toS i)) (eig (Mm (toS i)) (Tm c (toS i))) (eig (FE (toS i) * Mm (toS i)) (E c 1)) (eig (FE (toS i) * Mm (toS i)) (E c 4))) / (FE (toS i)).det, (4 * quad6 (P (toS i)) (KS (toS i)) 1 5 + 4 * D2 (lam (toS i)) (ev (toS i)) (dv (toS i)) (sv (toS i)) (eig (Mm (toS i)) (Tm c (toS i))) (eig (FE (toS i) * Mm (toS i)) (E c 1)) (eig (FE (toS i) * Mm (toS i)) (E c 5))) / (FE (toS i)).det] := by
-  rw [← N3_E_spatial_row1 c c3 fn hc (toS i) hl]
-  simp only [Gen3TE.N3_E_truesdell_Kr1_0_full, Gen3TE.N3_E_truesdell_Kr1_1_full, Gen3TE.N3_E_truesdell_Kr1_2_full, Gen3TE.N3_E_truesdell_Kr1_3_full, Gen3TE.N3_E_truesdell_Kr1_4_full, Gen3TE.N3_E_truesdell_Kr1_5_full, Gen3TE.N3_E_spatial_Kr1_0_full, Gen3TE.N3_E_spatial_Kr1_1_full, Gen3TE.N3_E_spatial_Kr1_2_full, Gen3TE.N3_E_spatial_Kr1_3_full, Gen3TE.N3_E_spatial_Kr1_4_full, Gen3TE.N3_E_spatial_Kr1_5_full, ← truesdell_cuts]
-  simp only [gen_simp, toS, toSc, FE, M3.ofTens, M3.det, List.cons.injEq, and_true]
-  repeat' apply And.intro
-  all_goals ring
+  have h := N3_E_spatial_row1 c c3 fn hc (toS i) hl
+  have e : [Gen3TE.N3_E_truesdell_Kr1_0_full c c3 fn i, Gen3TE.N3_E_truesdell_Kr1_1_full c c3 fn i, Gen3TE.N3_E_truesdell_Kr1_2_full c c3 fn i, Gen3TE.N3_E_truesdell_Kr1_3_full c c3 fn i, Gen3TE.N3_E_truesdell_Kr1_4_full c c3 fn i, Gen3TE.N3_E_truesdell_Kr1_5_full c c3 fn i]
+      = [Gen3TE.N3_E_spatial_Kr1_0_full c c3 fn (toS i) / (FE (toS i)).det, Gen3TE.N3_E_spatial_Kr1_1_full c c3 fn (toS i) / (FE (toS i)).det, Gen3TE.N3_E_spatial_Kr1_2_full c c3 fn (toS i) / (FE (toS i)).det, Gen3TE.N3_E_spatial_Kr1_3_full c c3 fn (toS i) / (FE (toS i)).det, Gen3TE.N3_E_spatial_Kr1_4_full c c3 fn (toS i) / (FE (toS i)).det, Gen3TE.N3_E_spatial_Kr1_5_full c c3 fn (toS i) / (FE (toS i)).det] := by
+    simp only [Gen3TE.N3_E_truesdell_Kr1_0_full, Gen3TE.N3_E_truesdell_Kr1_1_full, Gen3TE.N3_E_truesdell_Kr1_2_full, Gen3TE.N3_E_truesdell_Kr1_3_full, Gen3TE.N3_E_truesdell_Kr1_4_full, Gen3TE.N3_E_truesdell_Kr1_5_full, Gen3TE.N3_E_spatial_Kr1_0_full, Gen3TE.N3_E_spatial_Kr1_1_full, Gen3TE.N3_E_spatial_Kr1_2_full, Gen3TE.N3_E_spatial_Kr1_3_full, Gen3TE.N3_E_spatial_Kr1_4_full, Gen3TE.N3_E_spatial_Kr1_5_full, ← truesdell_cuts]
+    simp only [gen_simp, toS, toSc, FE, M3.ofTens, M3.det, List.cons.injEq, and_true]
+    repeat' apply And.intro
+    all_goals ring
+  rw [e]
+  simp only [List.cons.injEq, and_true] at h ⊢
+  obtain ⟨h0, h1, h2, h3, h4, h5⟩ := h
+  rw [h0, h1, h2, h3, h4, h5]
+  exact ⟨rfl, rfl, rfl, rfl, rfl, rfl⟩
 
 theorem N3_E_truesdell_row2 (hc : c * c = 2) (i : InT K)
     (hl : ∀ a b : Fin 3, a ≠ b → lam (toS i) a ≠ lam (toS i) b) :
     [Gen3TE.N3_E_truesdell_Kr2_0_full c c3 fn i, Gen3TE.N3_E_truesdell_Kr2_1_full c c3 fn i, Gen3TE.N3_E_truesdell_Kr2_2_full c c3 fn i, Gen3TE.N3_E_truesdell_Kr2_3_full c c3 fn i, Gen3TE.N3_E_truesdell_Kr2_4_full c c3 fn i, Gen3TE.N3_E_truesdell_Kr2_5_full c c3 fn i]
     = [(4 * quad6 (P (toS i)) (KS (toS i)) 2 0 + 4 * D2 (lam (toS i)) (ev (toS i)) (dv (toS i)) (sv (toS i)) (eig (Mm (toS i)) (Tm c (toS i))) (eig (FE (toS i) * Mm (toS i)) (E c 2)) (eig (FE (toS i) * Mm (toS i)) (E c 0))) / (FE (toS i)).det, (4 * quad6 (P (toS i)) (KS (toS i)) 2 1 + 4 * D2 (lam (toS i)) (ev (toS i)) (dv (toS i)) (sv (toS i)) (eig (Mm (toS i)) (Tm c (toS i))) (eig (FE (toS i) * Mm (toS i)) (E c 2)) (eig (FE (toS i) * Mm (toS i)) (E c 1))) / (FE (toS i)).det, (4 * quad6 (P (toS i)) (KS (toS i)) 2 2 + 4 * D2 (lam (toS i)) (ev (toS i)) (dv (toS i)) (sv (toS i)) (eig (Mm (toS i)) (Tm c (toS i))) (eig (FE (toS i) * Mm (toS i)) (E c 2)) (eig (FE (toS i) * Mm (toS i)) (E c 2))) / (FE (toS i)).det, (4 * quad6 (P (toS i)) (KS (toS i)) 2 3 + 4 * D2 (lam (toS i)) (ev (toS i)) (dv (toS i)) (sv (toS i)) (eig (Mm (toS i)) (Tm c (toS i))) (eig (FE (toS i) * Mm (toS i)) (E c 2)) (eig (FE (toS i) * Mm (toS i)) (E c 3))) / (FE (toS i)).det, (4 * quad6 (P (toS i)) (KS (toS i)) 2 4 + 4 * D2 (lam (toS i)) (ev (toS i)) (dv (toS i)) (sv (toS i)) (eig (Mm (toS i)) (Tm c (toS i))) (eig (FE (toS i) * Mm (toS i)) (E c 2)) (eig (FE (toS i) * Mm (toS i)) (E c 4))) / (FE (toS i)).det, (4 * quad6 (P (toS i)) (KS (toS i)) 2 5 + 4 * D2 (lam (toS i)) (ev (toS i)) (dv (toS i)) (sv (toS i)) (eig (Mm (toS i)) (Tm c (toS i))) (eig (FE (toS i) * Mm (toS i)) (E c 2)) (eig (FE (toS i) * Mm (toS i)) (E c 5))) / (FE (toS i)).det] := by
-  rw [← N3_E_spatial_row2 c c3 fn hc (toS i) hl]
-  simp only [Gen3TE.N3_E_truesdell_Kr2_0_full, Gen3TE.N3_E_truesdell_Kr2_1_full, Gen3TE.N3_E_truesdell_Kr2_2_full, Gen3TE.N3_E_truesdell_Kr2_3_full, Gen3TE.N3_E_truesdell_Kr2_4_full, Gen3TE.N3_E_truesdell_Kr2_5_full, Gen3TE.N3_E_spatial_Kr2_0_full, Gen3TE.N3_E_spatial_Kr2_1_full, Gen3TE.N3_E_spatial_Kr2_2_full, Gen3TE.N3_E_spatial_Kr2_3_full, Gen3TE.N3_E_spatial_Kr2_4_full, Gen3TE.N3_E_spatial_Kr2_5_full, ← truesdell_cuts]
-  simp only [gen_simp, toS, toSc, FE, M3.ofTens, M3.det, List.cons.injEq, and_true]
-  repeat' apply And.intro
-  all_goals ring
+  have h := N3_E_spatial_row2 c c3 fn hc (toS i) hl
+  have e : [Gen3TE.N3_E_truesdell_Kr2_0_full c c3 fn i, Gen3TE.N3_E_truesdell_Kr2_1_full c c3 fn i, Gen3TE.N3_E_truesdell_Kr2_2_full c c3 fn i, Gen3TE.N3_E_truesdell_Kr2_3_full c c3 fn i, Gen3TE.N3_E_truesdell_Kr2_4_full c c3 fn i, Gen3TE.N3_E_truesdell_Kr2_5_full c c3 fn i]
+      = [Gen3TE.N3_E_spatial_Kr2_0_full c c3 fn (toS i) / (FE (toS i)).det, Gen3TE.N3_E_spatial_Kr2_1_full c c3 fn (toS i) / (FE (toS i)).det, Gen3TE.N3_E_spatial_Kr2_2_full c c3 fn (toS i) / (FE (toS i)).det, Gen3TE.N3_E_spatial_Kr2_3_full c c3 fn (toS i) / (FE (toS i)).det, Gen3TE.N3_E_spatial_Kr2_4_full c c3 fn (toS i) / (FE (toS i)).det, Gen3TE.N3_E_spatial_Kr2_5_full c c3 fn (toS i) / (FE (toS i)).det] := by
+    simp only [Gen3TE.N3_E_truesdell_Kr2_0_full, Gen3TE.N3_E_truesdell_Kr2_1_full, Gen3TE.N3_E_truesdell_Kr2_2_full, Gen3TE.N3_E_truesdell_Kr2_3_full, Gen3TE.N3_E_truesdell_Kr2_4_full, Gen3TE.N3_E_truesdell_Kr2_5_full, Gen3TE.N3_E_spatial_Kr2_0_full, Gen3TE.N3_E_spatial_Kr2_1_full, Gen3TE.N3_E_spatial_Kr2_2_full, Gen3TE.N3_E_spatial_Kr2_3_full, Gen3TE.N3_E_spatial_Kr2_4_full, Gen3TE.N3_E_spatial_Kr2_5_full, ← truesdell_cuts]
+    simp only [gen_simp, toS, toSc, FE, M3.ofTens, M3.det, List.cons.injEq, and_true]
+    repeat' apply And.intro
+    all_goals ring
+  rw [e]
+  simp only [List.cons.injEq, and_true] at h ⊢
+  obtain ⟨h0, h1, h2, h3, h4, h5⟩ := h
+  rw [h0, h1, h2, h3, h4, h5]
+  exact ⟨rfl, rfl, rfl, rfl, rfl, rfl⟩
 
 theorem N3_E_truesdell_row3 (hc : c * c = 2) (i : InT K)
     (hl : ∀ a b : Fin 3, a ≠ b → lam (toS i) a ≠ lam (toS i) b) :
     [Gen3TE.N3_E_truesdell_Kr3_0_full c c3 fn i, Gen3TE.N3_E_truesdell_Kr3_1_full c c3 fn i, Gen3TE.N3_E_truesdell_Kr3_2_full c c3 fn i, Gen3TE.N3_E_truesdell_Kr3_3_full c c3 fn i, Gen3TE.N3_E_truesdell_Kr3_4_full c c3 fn i, Gen3TE.N3_E_truesdell_Kr3_5_full c c3 fn i]
     = [(4 * quad6 (P (toS i)) (KS (toS i)) 3 0 + 4 * D2 (lam (toS i)) (ev (toS i)) (dv (toS i)) (sv (toS i)) (eig (Mm (toS i)) (Tm c (toS i))) (eig (FE (toS i) * Mm (toS i)) (E c 3)) (eig (FE (toS i) * Mm (toS i)) (E c 0))) / (FE (toS i)).det, (4 * quad6 (P (toS i)) (KS (toS i)) 3 1 + 4 * D2 (lam (toS i)) (ev (toS i)) (dv (toS i)) (sv (toS i)) (eig (Mm (toS i)) (Tm c (toS i))) (eig (FE (toS i) * Mm (toS i)) (E c 3)) (eig (FE (toS i) * Mm (toS i)) (E c 1))) / (FE (toS i)).det, (4 * quad6 (P (toS i)) (KS (toS i)) 3 2 + 4 * D2 (lam (toS i)) (ev (toS i)) (dv (toS i)) (sv (toS i)) (eig (Mm (toS i)) (Tm c (toS i))) (eig (FE (toS i) * Mm (toS i)) (E c 3)) (eig (FE (toS i) * Mm (toS i)) (E c 2))) / (FE (toS i)).det, (4 * quad6 (P (toS i)) (KS (toS i)) 3 3 + 4 * D2 (lam (toS i)) (ev (toS i)) (dv (toS i)) (sv (toS i)) (eig (Mm (toS i)) (Tm c (toS i))) (eig (FE (toS i) * Mm (toS i)) (E c 3)) (eig (FE (toS i) * Mm (toS i)) (E c 3))) / (FE (toS i)).det, (4 * quad6 (P (toS i)) (KS (toS i)) 3 4 + 4 * D2 (lam (toS i)) (ev (toS i)) (dv (toS i)) (sv (toS i)) (eig (Mm (toS i)) (Tm c (toS i))) (eig (FE (toS i) * Mm (toS i)) (E c 3)) (eig (FE (toS i) * Mm (toS i)) (E c 4))) / (FE (toS i)).det, (4 * quad6 (P (toS i)) (KS (toS i)) 3 5 + 4 * D2 (lam (toS i)) (ev (toS i)) (dv (toS i)) (sv (toS i)) (eig (Mm (toS i)) (Tm c (toS i))) (eig (FE (toS i) * Mm (toS i)) (E c 3)) (eig (FE (toS i) * Mm (toS i)) (E c 5))) / (FE (toS i)).det] := by
-  rw [← N3_E_spatial_row3 c c3 fn hc (toS i) hl]
-  simp only [Gen3TE.N3_E_truesdell_Kr3_0_full, Gen3TE.N3_E_truesdell_Kr3_1_full, Gen3TE.N3_E_truesdell_Kr3_2_full, Gen3TE.N3_E_truesdell_Kr3_3_full, Gen3TE.N3_E_truesdell_Kr3_4_full, Gen3TE.N3_E_truesdell_Kr3_5_full, Gen3TE.N3_E_spatial_Kr3_0_full, Gen3TE.N3_E_spatial_Kr3_1_full, Gen3TE.N3_E_spatial_Kr3_2_full, Gen3TE.N3_E_spatial_Kr3_3_full, Gen3TE.N3_E_spatial_Kr3_4_full, Gen3TE.N3_E_spatial_Kr3_5_full, ← truesdell_cuts]
-  simp only [gen_simp, toS, toSc, FE, M3.ofTens, M3.det, List.cons.injEq, and_true]
-  repeat' apply And.intro
-  all_goals ring
+  have h := N3_E_spatial_row3 c c3 fn hc (toS i) hl
+  have e : [Gen3TE.N3_E_truesdell_Kr3_0_full c c3 fn i, Gen3TE.N3_E_truesdell_Kr3_1_full c c3 fn i, Gen3TE.N3_E_truesdell_Kr3_2_full c c3 fn i, Gen3TE.N3_E_truesdell_Kr3_3_full c c3 fn i, Gen3TE.N3_E_truesdell_Kr3_4_full c c3 fn i, Gen3TE.N3_E_truesdell_Kr3_5_full c c3 fn i]
+      = [Gen3TE.N3_E_spatial_Kr3_0_full c c3 fn (toS i) / (FE (toS i)).det, Gen3TE.N3_E_spatial_Kr3_1_full c c3 fn (toS i) / (FE (toS i)).det, Gen3TE.N3_E_spatial_Kr3_2_full c c3 fn (toS i) / (FE (toS i)).det, Gen3TE.N3_E_spatial_Kr3_3_full c c3 fn (toS i) / (FE (toS i)).det, Gen3TE.N3_E_spatial_Kr3_4_full c c3 fn (toS i) / (FE (toS i)).det, Gen3TE.N3_E_spatial_Kr3_5_full c c3 fn (toS i) / (FE (toS i)).det] := by
+    simp only [Gen3TE.N3_E_truesdell_Kr3_0_full, Gen3TE.N3_E_truesdell_Kr3_1_full, Gen3TE.N3_E_truesdell_Kr3_2_full, Gen3TE.N3_E_truesdell_Kr3_3_full, Gen3TE.N3_E_truesdell_Kr3_4_full, Gen3TE.N3_E_truesdell_Kr3_5_full, Gen3TE.N3_E_spatial_Kr3_0_full, Gen3TE.N3_E_spatial_Kr3_1_full, Gen3TE.N3_E_spatial_Kr3_2_full, Gen3TE.N3_E_spatial_Kr3_3_full, Gen3TE.N3_E_spatial_Kr3_4_full, Gen3TE.N3_E_spatial_Kr3_5_full, ← truesdell_cuts]
+    simp only [gen_simp, toS, toSc, FE, M3.ofTens, M3.det, List.cons.injEq, and_true]
+    repeat' apply And.intro
+    all_goals ring
+  rw [e]
+  simp only [List.cons.injEq, and_true] at h ⊢
+  obtain ⟨h0, h1, h2, h3, h4, h5⟩ := h
+  rw [h0, h1, h2, h3, h4, h5]
+  exact ⟨rfl, rfl, rfl, rfl, rfl, rfl⟩
 
 theorem N3_E_truesdell_row4 (hc : c * c = 2) (i : InT K)
     (hl : ∀ a b : Fin 3, a ≠ b → lam (toS i) a ≠ lam (toS i) b) :
     [Gen3TE.N3_E_truesdell_Kr4_0_full c c3 fn i, Gen3TE.N3_E_truesdell_Kr4_1_full c c3 fn i, Gen3TE.N3_E_truesdell_Kr4_2_full c c3 fn i, Gen3TE.N3_E_truesdell_Kr4_3_full c c3 fn i, Gen3TE.N3_E_truesdell_Kr4_4_full c c3 fn i, Gen3TE.N3_E_truesdell_Kr4_5_full c c3 fn i]
     = [(4 * quad6 (P (toS i)) (KS (toS i)) 4 0 + 4 * D2 (lam (toS i)) (ev (toS i)) (dv (toS i)) (sv (toS i)) (eig (Mm (toS i)) (Tm c (toS i))) (eig (FE (toS i) * Mm (toS i)) (E c 4)) (eig (FE (toS i) * Mm (toS i)) (E c 0))) / (FE (toS i)).det, (4 * quad6 (P (toS i)) (KS (toS i)) 4 1 + 4 * D2 (lam (toS i)) (ev (toS i)) (dv (toS i)) (sv (toS i)) (eig (Mm (toS i)) (Tm c (toS i))) (eig (FE (toS i) * Mm (toS i)) (E c 4)) (eig (FE (toS i) * Mm (toS i)) (E c 1))) / (FE (toS i)).det, (4 * quad6 (P (toS i)) (KS (toS i)) 4 2 + 4 * D2 (lam (toS i)) (ev (toS i)) (dv (toS i)) (sv (toS i)) (eig (Mm (toS i)) (Tm c (toS i))) (eig (FE (toS i) * Mm (toS i)) (E c 4)) (eig (FE (toS i) * Mm (toS i)) (E c 2))) / (FE (toS i)).det, (4 * quad6 (P (toS i)) (KS (toS i)) 4 3 + 4 * D2 (lam (toS i)) (ev (toS i)) (dv (toS i)) (sv (toS i)) (eig (Mm (toS i)) (Tm c (toS i))) (eig (FE (toS i) * Mm (toS i)) (E c 4)) (eig (FE (toS i) * Mm (toS i)) (E c 3))) / (FE (toS i)).det, (4 * quad6 (P (toS i)) (KS (toS i)) 4 4 + 4 * D2 (lam (toS i)) (ev (toS i)) (dv (toS i)) (sv (toS i)) (eig (Mm (toS i)) (Tm c (toS i))) (eig (FE (toS i) * Mm (toS i)) (E c 4)) (eig (FE (toS i) * Mm (toS i)) (E c 4))) / (FE (toS i)).det, (4 * quad6 (P (toS i)) (KS (toS i)) 4 5 + 4 * D2 (lam (toS i)) (ev (toS i)) (dv (toS i)) (sv (toS i)) (eig (Mm (toS i)) (Tm c (toS i))) (eig (FE (toS i) * Mm (toS i)) (E c 4)) (eig (FE (toS i) * Mm (toS i)) (E c 5))) / (FE (toS i)).det] := by
-  rw [← N3_E_spatial_row4 c c3 fn hc (toS i) hl]
-  simp only [Gen3TE.N3_E_truesdell_Kr4_0_full, Gen3TE.N3_E_truesdell_Kr4_1_full, Gen3TE.N3_E_truesdell_Kr4_2_full, Gen3TE.N3_E_truesdell_Kr4_3_full, Gen3TE.N3_E_truesdell_Kr4_4_full, Gen3TE.N3_E_truesdell_Kr4_5_full, Gen3TE.N3_E_spatial_Kr4_0_full, Gen3TE.N3_E_spatial_Kr4_1_full, Gen3TE.N3_E_spatial_Kr4_2_full, Gen3TE.N3_E_spatial_Kr4_3_full, Gen3TE.N3_E_spatial_Kr4_4_full, Gen3TE.N3_E_spatial_Kr4_5_full, ← truesdell_cuts]
-  simp only [gen_simp, toS, toSc, FE, M3.ofTens, M3.det, List.cons.injEq, and_true]
-  repeat' apply And.intro
-  all_goals ring
+  have h := N3_E_spatial_row4 c c3 fn hc (toS i) hl
+  have e : [Gen3TE.N3_E_truesdell_Kr4_0_full c c3 fn i, Gen3TE.N3_E_truesdell_Kr4_1_full c c3 fn i, Gen3TE.N3_E_truesdell_Kr4_2_full c c3 fn i, Gen3TE.N3_E_truesdell_Kr4_3_full c c3 fn i, Gen3TE.N3_E_truesdell_Kr4_4_full c c3 fn i, Gen3TE.N3_E_truesdell_Kr4_5_full c c3 fn i]
+      = [Gen3TE.N3_E_spatial_Kr4_0_full c c3 fn (toS i) / (FE (toS i)).det, Gen3TE.N3_E_spatial_Kr4_1_full c c3 fn (toS i) / (FE (toS i)).det, Gen3TE.N3_E_spatial_Kr4_2_full c c3 fn (toS i) / (FE (toS i)).det, Gen3TE.N3_E_spatial_Kr4_3_full c c3 fn (toS i) / (FE (toS i)).det, Gen3TE.N3_E_spatial_Kr4_4_full c c3 fn (toS i) / (FE (toS i)).det, Gen3TE.N3_E_spatial_Kr4_5_full c c3 fn (toS i) / (FE (toS i)).det] := by
+    simp only [Gen3TE.N3_E_truesdell_Kr4_0_full, Gen3TE.N3_E_truesdell_Kr4_1_full, Gen3TE.N3_E_truesdell_Kr4_2_full, Gen3TE.N3_E_truesdell_Kr4_3_full, Gen3TE.N3_E_truesdell_Kr4_4_full, Gen3TE.N3_E_truesdell_Kr4_5_full, Gen3TE.N3_E_spatial_Kr4_0_full, Gen3TE.N3_E_spatial_Kr4_1_full, Gen3TE.N3_E_spatial_Kr4_2_full, Gen3TE.N3_E_spatial_Kr4_3_full, Gen3TE.N3_E_spatial_Kr4_4_full, Gen3TE.N3_E_spatial_Kr4_5_full, ← truesdell_cuts]
+    simp only [gen_simp, toS, toSc, FE, M3.ofTens, M3.det, List.cons.injEq, and_true]
+    repeat' apply And.intro
+    all_goals ring
+  rw [e]
+  simp only [List.cons.injEq, and_true] at h ⊢
+  obtain ⟨h0, h1, h2, h3, h4, h5⟩ := h
+  rw [h0, h1, h2, h3, h4, h5]
+  exact ⟨rfl, rfl, rfl, rfl, rfl, rfl⟩
 
 theorem N3_E_truesdell_row5 (hc : c * c = 2) (i : InT K)
     (hl : ∀ a b : Fin 3, a ≠ b → lam (toS i) a ≠ lam (toS i) b) :
     [Gen3TE.N3_E_truesdell_Kr5_0_full c c3 fn i, Gen3TE.N3_E_truesdell_Kr5_1_full c c3 fn i, Gen3TE.N3_E_truesdell_Kr5_2_full c c3 fn i, Gen3TE.N3_E_truesdell_Kr5_3_full c c3 fn i, Gen3TE.N3_E_truesdell_Kr5_4_full c c3 fn i, Gen3TE.N3_E_truesdell_Kr5_5_full c c3 fn i]
     = [(4 * quad6 (P (toS i)) (KS (toS i)) 5 0 + 4 * D2 (lam (toS i)) (ev (toS i)) (dv (toS i)) (sv (toS i)) (eig (Mm (toS i)) (Tm c (toS i))) (eig (FE (toS i) * Mm (toS i)) (E c 5)) (eig (FE (toS i) * Mm (toS i)) (E c 0))) / (FE (toS i)).det, (4 * quad6 (P (toS i)) (KS (toS i)) 5 1 + 4 * D2 (lam (toS i)) (ev (toS i)) (dv (toS i)) (sv (toS i)) (eig (Mm (toS i)) (Tm c (toS i))) (eig (FE (toS i) * Mm (toS i)) (E c 5)) (eig (FE (toS i) * Mm (toS i)) (E c 1))) / (FE (toS i)).det, (4 * quad6 (P (toS i)) (KS (toS i)) 5 2 + 4 * D2 (lam (toS i)) (ev (toS i)) (dv (toS i)) (sv (toS i)) (eig (Mm (toS i)) (Tm c (toS i))) (eig (FE (toS i) * Mm (toS i)) (E c 5)) (eig (FE (toS i) * Mm (toS i)) (E c 2))) / (FE (toS i)).det, (4 * quad6 (P (toS i)) (KS (toS i)) 5 3 + 4 * D2 (lam (toS i)) (ev (toS i)) (dv (toS i)) (sv (toS i)) (eig (Mm (toS i)) (Tm c (toS i))) (eig (FE (toS i) * Mm (toS i)) (E c 5)) (eig (FE (toS i) * Mm (toS i)) (E c 3))) / (FE (toS i)).det, (4 * quad6 (P (toS i)) (KS (toS i)) 5 4 + 4 * D2 (lam (toS i)) (ev (toS i)) (dv (toS i)) (sv (toS i)) (eig (Mm (toS i)) (Tm c (toS i))) (eig (FE (toS i) * Mm (toS i)) (E c 5)) (eig (FE (toS i) * Mm (toS i)) (E c 4))) / (FE (toS i)).det, (4 * quad6 (P (toS i)) (KS (toS i)) 5 5 + 4 * D2 (lam (toS i)) (ev (toS i)) (dv (toS i)) (sv (toS i)) (eig (Mm (toS i)) (Tm c (toS i))) (eig (FE (toS i) * Mm (toS i)) (E c 5)) (eig (FE (toS i) * Mm (toS i)) (E c 5))) / (FE (toS i)).det] := by
-  rw [← N3_E_spatial_row5 c c3 fn hc (toS i) hl]
-  simp only [Gen3TE.N3_E_truesdell_Kr5_0_full, Gen3TE.N3_E_truesdell_Kr5_1_full, Gen3TE.N3_E_truesdell_Kr5_2_full, Gen3TE.N3_E_truesdell_Kr5_3_full, Gen3TE.N3_E_truesdell_Kr5_4_full, Gen3TE.N3_E_truesdell_Kr5_5_full, Gen3TE.N3_E_spatial_Kr5_0_full, Gen3TE.N3_E_spatial_Kr5_1_full, Gen3TE.N3_E_spatial_Kr5_2_full, Gen3TE.N3_E_spatial_Kr5_3_full, Gen3TE.N3_E_spatial_Kr5_4_full, Gen3TE.N3_E_spatial_Kr5_5_full, ← truesdell_cuts]
-  simp only [gen_simp, toS, toSc, FE, M3.ofTens, M3.det, List.cons.injEq, and_true]
-  repeat' apply And.intro
-  all_goals ring
+  have h := N3_E_spatial_row5 c c3 fn hc (toS i) hl
+  have e : [Gen3TE.N3_E_truesdell_Kr5_0_full c c3 fn i, Gen3TE.N3_E_truesdell_Kr5_1_full c c3 fn i, Gen3TE.N3_E_truesdell_Kr5_2_full c c3 fn i, Gen3TE.N3_E_truesdell_Kr5_3_full c c3 fn i, Gen3TE.N3_E_truesdell_Kr5_4_full c c3 fn i, Gen3TE.N3_E_truesdell_Kr5_5_full c c3 fn i]
+      = [Gen3TE.N3_E_spatial_Kr5_0_full c c3 fn (toS i) / (FE (toS i)).det, Gen3TE.N3_E_spatial_Kr5_1_full c c3 fn (toS i) / (FE (toS i)).det, Gen3TE.N3_E_spatial_Kr5_2_full c c3 fn (toS i) / (FE (toS i)).det, Gen3TE.N3_E_spatial_Kr5_3_full c c3 fn (toS i) / (FE (toS i)).det, Gen3TE.N3_E_spatial_Kr5_4_full c c3 fn (toS i) / (FE (toS i)).det, Gen3TE.N3_E_spatial_Kr5_5_full c c3 fn (toS i) / (FE (toS i)).det] := by
+    simp only [Gen3TE.N3_E_truesdell_Kr5_0_full, Gen3TE.N3_E_truesdell_Kr5_1_full, Gen3TE.N3_E_truesdell_Kr5_2_full, Gen3TE.N3_E_truesdell_Kr5_3_full, Gen3TE.N3_E_truesdell_Kr5_4_full, Gen3TE.N3_E_truesdell_Kr5_5_full, Gen3TE.N3_E_spatial_Kr5_0_full, Gen3TE.N3_E_spatial_Kr5_1_full, Gen3TE.N3_E_spatial_Kr5_2_full, Gen3TE.N3_E_spatial_Kr5_3_full, Gen3TE.N3_E_spatial_Kr5_4_full, Gen3TE.N3_E_spatial_Kr5_5_full, ← truesdell_cuts]
+    simp only [gen_simp, toS, toSc, FE, M3.ofTens, M3.det, List.cons.injEq, and_true]
+    repeat' apply And.intro
+    all_goals ring
+  rw [e]
+  simp only [List.cons.injEq, and_true] at h ⊢
+  obtain ⟨h0, h1, h2, h3, h4, h5⟩ := h
+  rw [h0, h1, h2, h3, h4, h5]
+  exact ⟨rfl, rfl, rfl, rfl, rfl, rfl⟩
 
 end TfelVerif.C24.Props3TE
